@@ -7,6 +7,7 @@
 #include <cstring>
 #include <functional>
 #include <random>
+#include <set>
 using namespace yakushima;
 static std::map<std::string, std::string> A;
 static long argi(const char* k, long d) { auto it = A.find(k); return it == A.end() ? d : atol(it->second.c_str()); }
@@ -32,14 +33,18 @@ int main(int argc, char** argv) {
     long pprobe = argi("pprobe", 50), dumpevery = argi("dumpevery", 10), dumpall = argi("dumpall", 0), legacy = argi("legacy", 10), uniqp = argi("uniq", 20);
     std::string mode = args("mode", "short");
     // key pool
-    std::vector<std::string> keys;
+    std::vector<std::string> keys; std::set<std::string> probe_only;
     auto rnd_bytes = [&](int len) { std::string k; for (int j = 0; j < len; j++) k.push_back((char)AL[rng() % alpha]); return k; };
     std::vector<std::string> prefixes;
     for (int i = 0; i < 3; i++) prefixes.push_back(rnd_bytes(8));
     prefixes.push_back(std::string(8, (char)255)); prefixes.push_back(prefixes[0] + rnd_bytes(8)); prefixes.push_back(prefixes[0] + std::string(8, (char)255));
     for (long i = 0; i < pool; i++) {
         std::string k;
-        if (mode == "boundary") { static const unsigned char B3[] = {0, 1, 255}; k = std::string(8, (char)0); k[0] = (char)B3[rng() % 3]; k[1] = (char)B3[rng() % 3]; k[7] = (char)B3[rng() % 3];
+        if (mode == "linksonly") {   // upper borders hold next-layer links only; short keys exist in the pool but are inserted by phantom probes only
+            if (i % 10 < 3) { k = rnd_bytes(rng() % 9); probe_only.insert(k); }
+            else { k = prefixes[rng() % 3]; if (rng() % 4 == 0) k += prefixes[rng() % 2]; k += rnd_bytes(1 + rng() % (maxlen > 0 ? maxlen : 1)); }
+        }
+        else if (mode == "boundary") { static const unsigned char B3[] = {0, 1, 255}; k = std::string(8, (char)0); k[0] = (char)B3[rng() % 3]; k[1] = (char)B3[rng() % 3]; k[7] = (char)B3[rng() % 3];
                                   int L = rng() % 12; if (L <= 8) k.resize(L); else { std::string t(L - 8, (char)0); for (auto& ch : t) ch = (char)B3[rng() % 3]; k += t; } }
         else if (mode == "short") k = rnd_bytes(rng() % (maxlen + 1));
         else if (mode == "prefix") { k = (rng() % 4 == 0) ? std::string() : prefixes[rng() % prefixes.size()]; if (rng() % 5 == 0) k.resize(rng() % (k.size() + 1)); k += rnd_bytes(rng() % (maxlen + 1)); }
@@ -115,7 +120,7 @@ int main(int argc, char** argv) {
             if (cand.empty()) { for (int t = 0; t < 3; t++) { std::string k = endkey(); if (!present[k]) cand.push_back(k); } }
             if (!cand.empty()) { std::string k = cand[rng() % cand.size()]; if (std::find(keys.begin(), keys.end(), k) == keys.end()) keys.push_back(k); do_put(k, false, true, opno); continue; }
         }
-        if (x < (acc += pput)) { do_put(pick(), (long)(rng() % 100) < uniqp, false, opno); continue; }
+        if (x < (acc += pput)) { std::string k = pick(); for (int tries = 0; tries < 20 && probe_only.count(k); tries++) k = pick(); if (!probe_only.count(k)) do_put(k, (long)(rng() % 100) < uniqp, false, opno); continue; }
         if (x < (acc += prem)) {
             std::string k = pick(); status rc = remove(tok, st, k);
             std::string o = "{\"op\":\"rem\",\"k\":" + vh::jbytes(k) + ",\"st\":\"" + vh::stname(rc) + "\"";
